@@ -13,7 +13,7 @@ Token grammar (whitespace separated):
   cond    := "celse" | "cconst" 0/1 | "cexpr" expr
   acts    := "acts" n act*
   act     := "finish" | "finishc" name | "yield" name | "hook" name | "append" oos out
-           | "appendc" oos out expr | "set" out expr | "setstr" out n byte* | "delete" out
+           | "appendc" oos out each expr | "set" out expr | "setstr" out n byte* | "delete" out
            | "break" end acts | "cond" nb (cond acts)*
   expr    := "lit" INT | "litb" 0/1 | "lite" NAME idx | "out" i | "len" i | "idx" i expr | "last"
            | "bin" op flat expr expr
@@ -153,7 +153,8 @@ class Exporter:
         elif isinstance(a, E.AppendTo):
             self.w("append", self.sidx(a.end_target), self.oidx(a.into_storage))
         elif isinstance(a, E.AppendCharTo):
-            self.w("appendc", self.sidx(a.end_target), self.oidx(a.into_storage))
+            self.w("appendc", self.sidx(a.end_target), self.oidx(a.into_storage),
+                   1 if getattr(a, "runs_for_each_character", False) else 0)
             self.expr(a.append_value)
         elif isinstance(a, E.SetTo):
             self.w("set", self.oidx(a.into_storage))
